@@ -7,7 +7,20 @@ PROXY = ["modules/l4proxy/verif_common_test.go"]
 MATCH = dict(name="match", pkg="./integration/", test="TestVerifMatch", files=INTEG + ["integration/verif_chain_test.go", "integration/verif_match_test.go", "integration/verif_match2_test.go", "integration/verif_match3_test.go"],
              nq=60000, nt=600000)
 
+THR = ["modules/l4throttle/verif_common_test.go", "modules/l4throttle/verif_throttle_test.go"]
+
 PROPS = {
+    "C17": dict(
+        lean_modules=["L4.Props.C17", "L4.Expect.C17"],
+        stages=[
+            dict(name="throttle", pkg="./modules/l4throttle/", test="TestVerifThrottle", files=THR, nq=3000, nt=60000),
+            dict(name="thrtimed", pkg="./modules/l4throttle/", test="TestVerifThrottleTimed", files=THR, nq=24, nt=240, lean=False),
+        ],
+        level_text="Kernel-checked on a transition system of the throttle handler (Handle's latency timer, one rate.Limiter per connection plus one shared by the handler, Read = reserve on the total limiter, wait, reserve on the local limiter, wait, read at most the batch) for every interleaving of any number of connections, buffer sizes and clock advances: the bytes read through a connection never exceed burst + rate × (now − its first read), the bytes read through all connections of a handler never exceed total burst + total rate × (now − the first read), the batch never exceeds the caller's buffer or any configured burst, every read returns at most the batch it paid for, and no read is attempted before the latency has passed. The invariant (21 conjuncts incl. the bucket's conservation chain over the ghost list of reservations) is preserved by all five actions. Tied to the code by an exact differential (Provision's defaults and limiter creation, the slice handed to the client conn for every caller buffer size, and the reservation delays of golang.org/x/time/rate driven with explicit dyadic times) and by a real-time one-sided oracle on the real handler (1-8 connections, per-connection / total / both limiters, latency-only configurations, short client reads) that also checks the delivered stream byte by byte.",
+        level_note="Trusted: Lean kernel, harness + driver, golang.org/x/time/rate (its reservation rule is re-stated in Lean and compared exactly on dyadic inputs; its handling of out-of-order clock readings between goroutines and float rounding are not modelled), Go timers. Partial: real time is judged with a 3 ms + 1 token allowance and a violation is reported only if it reproduces three times; stream integrity through the batching layer is C01's theorem.",
+        rule="throttle: Provision over rates k/d and bursts incl. 0; batch over all limiter combinations × bursts × caller buffers 1-100000; bucket: 1-12 reservations at dyadic times on limiters of 256-2^20 tokens/s; thrtimed: 6 scenario kinds (local only, total only, both with either tighter, latency with and without limiter, short client reads) × rates 2 KiB/s-1 MiB/s × 1-8 connections × 300-600 ms; non-trivial = scenario completed / non-empty output",
+        assumptions=["the observer's clock readings around each client read bracket the instant of the read", "rate.Limiter implements the token-bucket reservation rule"],
+    ),
     "C05": dict(
         lean_modules=["L4.Props.C05", "L4.Expect.C05"],
         stages=[
